@@ -18,6 +18,12 @@ CLAIMED = {
          'exactly (no tolerance) with xEventList.fill_livetime; header LIVETIME/ONTIME/DEADC checked through write_fits and on real simulations with synthetic GTIs.',
          'Lean kernel (core only); axioms ⊆ {propext}; the hand-written model and the generators of the correspondence; numpy searchsorted/diff/fancy-assignment semantics; astropy I/O. '
          'Known findings: GTI gap < dead time, event exactly on a GTI start, int32 LIVETIME overflow.'),
+ 'C04': ('proof', 'Lean 4 theorems about a model of _finalize (fiducial cut, sort, dead-time veto, livetime, trigger id), tied by exact differential correspondence on tagged rows',
+         'finalize_sorted, finalize_mem (rows intact, inside the fiducial rectangle), finalize_spaced, non-paralysable veto lemmas, finalize_rows_and_trg (TRG_ID 1..N, one row per kept event), '
+         'concat_order_irrelevant (any permutation of the concatenated components), split_time_spec; the model is compared exactly with xEventList.__add__/_finalize/write_fits on crafted '
+         'components (tags in PHA/MC_PHA) and the statement is evaluated on files from real ROI models simulated on synthetic GTIs.',
+         'Lean kernel (core only); hand-written model + generators; numpy.argsort instability on equal times (excluded); astropy I/O; GTI filtering itself is decided under C03/C18; '
+         'xBinarySource components are not GTI-filtered (known finding listed under C03).'),
 }
 NOT_YET = 'check not built yet in this round (work in progress; see DESIGN.md section 7 for the planned model and theorems)'
 
